@@ -219,7 +219,23 @@ def score_entry_points(obj, rng):
         "estimate_voices": lambda o: estimate_voices(o),
         "estimate_key": lambda o: estimate_key(o),
     }
+    def match_export(o):
+        # export the first part with a performance derived from it and a note-for-note alignment; the SCORE side
+        # (o) is the argument whose non-modification is judged
+        from partitura.io.exportmatch import save_match
+
+        pp = M.performance_from_part(part, bpm=100)
+        al = [{"label": "match", "score_id": n.id, "performance_id": n.id} for n in part.notes_tied]
+        b = io.StringIO()
+        mf = save_match(al, pp, part, out=None, assume_unfolded=True)
+        return [str(l.matchline) for l in mf.lines]
+
     if part is not None:
+        # (kern / MEI export are not among the entry points C20 lists; they belong to C19)
+        eps["save_match"] = match_export
+        eps["slice_notearray_by_time"] = lambda o: M.slice_notearray_by_time(part.note_array(), 0, 4)
+        eps["note_array_from_part_list"] = lambda o: M.note_array_from_part_list([part], unique_id_per_part=True)
+        eps["performance_from_part"] = lambda o: M.performance_from_part(part)
         t = (part.first_point.t + part.last_point.t) // 2 if part.first_point is not None else 0
         for nm in ("beat_map", "inv_beat_map", "quarter_map", "inv_quarter_map", "quarter_duration_map",
                    "time_signature_map", "key_signature_map", "clef_map", "measure_map", "measure_number_map",
